@@ -1,6 +1,6 @@
 (* Family dispatch: the single entry point of the extracted model. *)
 From Coq Require Import ZArith List Bool.
-From UV Require Import Verdict PositJudge FixpntModel IntegerModel LnsModel CfloatModel ArealModel QuireModel SqrtModel Ops TextModel.
+From UV Require Import Verdict PositJudge FixpntModel IntegerModel LnsModel CfloatModel ArealModel QuireModel SqrtModel Ops TextModel ElasticModel.
 Import ListNotations.
 Local Open Scope Z_scope.
 Definition FAM_posit : Z := 1.
@@ -11,12 +11,15 @@ Definition FAM_fixpnt : Z := 3.
 Definition FAM_integer : Z := 4.
 Definition FAM_lns : Z := 5.
 Definition judge (fam : Z) (cfg : list Z) (op : Z) (args res : list Z) : verdict :=
-  if Z.leb OP_hexfmt op && Z.leb op OP_decparse then judge_text fam cfg op args res else
+  if Z.leb OP_hexfmt op && Z.leb op OP_decparse && Z.ltb fam 11 then judge_text fam cfg op args res else
   if Z.eqb fam FAM_posit then judge_posit cfg op args res else
   if Z.eqb fam FAM_cfloat then (if Z.eqb op OP_sqrt then judge_sqrt_cfloat cfg args res else judge_cfloat cfg op args res) else
   if Z.eqb fam FAM_areal then judge_areal cfg op args res else
+  if Z.eqb fam 11 then judge_einteger cfg op args res else
+  if Z.eqb fam 12 then judge_edecimal cfg op args res else
+  if Z.eqb fam 13 then judge_erational cfg op args res else
   if Z.eqb fam FAM_quire then judge_quire cfg op args res else
   if Z.eqb fam FAM_fixpnt then (if Z.eqb op OP_sqrt then judge_sqrt_fixpnt cfg args res else judge_fixpnt cfg op args res) else
-  if Z.eqb fam FAM_integer then (if Z.eqb op OP_sqrt then judge_sqrt_integer cfg args res else judge_integer cfg op args res) else
+  if Z.eqb fam FAM_integer then (if Z.eqb op OP_conv_via_f64 then judge_i2p cfg args res else if Z.eqb op OP_sqrt then judge_sqrt_integer cfg args res else judge_integer cfg op args res) else
   if Z.eqb fam FAM_lns then judge_lns cfg op args res else
   mkV false [] false.
